@@ -211,6 +211,37 @@ async def oversized_reply(ctx):
     await asyncio.sleep(0.2)
 
 
+async def empty_datagram(ctx):
+    """An application sends a datagram with no payload to a target that answers with a datagram with no payload: legal in
+    every protocol, and the one case in which the Shadowsocks 2022 encoders add padding."""
+    loop = asyncio.get_event_loop()
+    tgt = socket.socket(socket.AF_INET, socket.SOCK_DGRAM)
+    tgt.bind(("127.0.0.1", 0))
+    tgt.setblocking(False)
+    echoed = [0]
+
+    def echo():
+        try:
+            while True:
+                data, peer = tgt.recvfrom(1 << 16)
+                tgt.sendto(data, peer)
+                echoed[0] += 1
+        except (BlockingIOError, OSError):
+            pass
+    loop.add_reader(tgt.fileno(), echo)
+    try:
+        for k in range(4):
+            s = socket.socket(socket.AF_INET, socket.SOCK_DGRAM)
+            s.bind(("127.0.0.1", 0))
+            s.sendto(b"\x00\x00\x00" + e2e.socks5_addr("127.0.0.1", tgt.getsockname()[1]), ("127.0.0.1", ctx.dep.client_port))
+            await asyncio.sleep(0.08)
+            s.close()
+        await asyncio.sleep(0.1)
+    finally:
+        loop.remove_reader(tgt.fileno())
+        tgt.close()
+
+
 async def _exhaust(port, n=NOFILE + 60):
     conns = []
     for _ in range(n):
@@ -239,7 +270,7 @@ INJECT = {
     "RefusedTcp": refused_tcp, "TargetResets": target_resets, "AppResets": app_resets, "GarbageDatagram": garbage_datagram,
     "ReplayedDatagram": replayed_datagram, "UnresolvableUdp": unresolvable_udp, "MalformedLocalShort": malformed_local_short,
     "MalformedLocalFrag": malformed_local_frag, "MalformedLocalType": malformed_local_type, "OversizedDatagram": oversized_datagram,
-    "OversizedReply": oversized_reply, "FdExhaustServer": fd_exhaust_server, "FdExhaustClient": fd_exhaust_client,
+    "OversizedReply": oversized_reply, "EmptyDatagram": empty_datagram, "FdExhaustServer": fd_exhaust_server, "FdExhaustClient": fd_exhaust_client,
 }
 
 
